@@ -79,13 +79,14 @@ var forms = []form{
 func aliasName(i int) string { return fmt.Sprintf("a%d.example", i) }
 
 var (
-	ipO4 = net.IP{192, 0, 2, 10}
-	ipO6 = net.ParseIP("2001:db8::10")
-	ipT4 = net.IP{198, 51, 100, 1}
-	ipT6 = net.ParseIP("2001:db8::a1")
-	ipX4 = net.IP{203, 0, 113, 66}
-	ipX6 = net.ParseIP("2001:db8::bad")
-	ipC4 = net.IP{192, 0, 2, 77}
+	ipO4  = net.IP{192, 0, 2, 10}
+	ipO6  = net.ParseIP("2001:db8::10")
+	ipT4  = net.IP{198, 51, 100, 1}
+	ipT4b = net.IP{198, 51, 100, 2}
+	ipT6  = net.ParseIP("2001:db8::a1")
+	ipX4  = net.IP{203, 0, 113, 66}
+	ipX6  = net.ParseIP("2001:db8::bad")
+	ipC4  = net.IP{192, 0, 2, 77}
 )
 
 // zone is the concrete DNS data: (name,type) -> answer.
@@ -174,10 +175,16 @@ func build(u universe) (*zone, expectation) {
 		z.data[zkey("t1.example", 1)] = dohmem.Answer{Records: []dnsref.RR{{Name: "t1.example", Type: 1, Class: 1, TTL: 60, Fields: []dnsref.Field{{Raw: ipT4}}}}}
 		z.data[zkey("t1.example", 28)] = dohmem.Answer{Records: []dnsref.RR{{Name: "t1.example", Type: 28, Class: 1, TTL: 60, Fields: []dnsref.Field{{Raw: ipT6}}}}}
 		t1ips = []net.IP{ipT4, ipT6}
-	case 3:
+	case 3, 4:
 		z.data[zkey("t1.example", 1)] = dohmem.Answer{RCode: 2}
 		z.data[zkey("t1.example", 28)] = dohmem.Answer{RCode: 2}
 		t1ok = false
+	}
+	var t2ips []net.IP
+	if u.T1 >= 4 || u.T1 == 2 {
+		// the second target has addresses of its own: a failing first target must not hide them
+		z.data[zkey("t2.example", 1)] = dohmem.Answer{Records: []dnsref.RR{{Name: "t2.example", Type: 1, Class: 1, TTL: 60, Fields: []dnsref.Field{{Raw: ipT4b}}}}}
+		t2ips = []net.IP{ipT4b}
 	}
 	_ = t1ok
 
@@ -276,6 +283,12 @@ func build(u universe) (*zone, expectation) {
 				}
 				r.Additional[s.Target] = t1ips
 			}
+			if s.Target == "t2.example" && len(t2ips) > 0 {
+				if r.Additional == nil {
+					r.Additional = map[string][]net.IP{}
+				}
+				r.Additional[s.Target] = t2ips
+			}
 		}
 		return r
 	}
@@ -320,7 +333,19 @@ func (z *zone) answer(name string, t uint16) dohmem.Answer {
 		default:
 			p = httpsRR("x.example", svc{Prio: 1, Target: "evil.example", ECH: true})
 		}
-		a.Records = append([]dnsref.RR{p}, a.Records...)
+		// ... and an unrelated CNAME followed by data for its target (must not redirect the chain)
+		hijack := dnsref.RR{Name: "x.example", Type: 5, Class: 1, TTL: 60, Fields: []dnsref.Field{dnsref.N("evil.example")}}
+		var evil dnsref.RR
+		switch t {
+		case 1:
+			evil = dnsref.RR{Name: "evil.example", Type: 1, Class: 1, TTL: 60, Fields: []dnsref.Field{{Raw: ipX4}}}
+		case 28:
+			evil = dnsref.RR{Name: "evil.example", Type: 28, Class: 1, TTL: 60, Fields: []dnsref.Field{{Raw: ipX6}}}
+		default:
+			evil = httpsRR("evil.example", svc{Prio: 1, Target: "evil.example", ECH: true})
+		}
+		a.Records = append([]dnsref.RR{p, hijack, evil}, a.Records...)
+		a.Records = append(a.Records, hijack, evil)
 		a.Additional = append(a.Additional, p)
 	}
 	return a
@@ -472,7 +497,7 @@ func expectStr(e expectation) string {
 
 func Run(r *ev.Run) {
 	log.SetOutput(io.Discard) // the package logs alias loops through the standard logger
-	r.Rule("reference resolver model (RFC 9460 §2.3, §2.4.2, §3 + property text) + total replay: universes = HTTPS data {none, NXDOMAIN/SERVFAIL/REFUSED/FORMERR/NOTIMP, alias chains of length 1..6 ending in {nothing, service set, alias '.', loop to origin/first/self, NXDOMAIN, SERVFAIL}, 14 service sets (1-2 records, priorities in both orders and equal, targets '.', t1, t2, port, ech)} x final-name addresses {A?,AAAA?} x address rcode {ok,NXDOMAIN,SERVFAIL} x in-answer CNAME x target addresses {none,A,A+AAAA,SERVFAIL} x poisoned extra answers on/off x 12 name forms (host, host:port, URIs with http/https/other schemes, upper-case scheme, trailing dot); plus literal/localhost forms and hostile lengths (host 253..300 bytes, labels 63/64, schemes 1..300 bytes). Every query is served by an in-memory DoH responder and logged. distinct = distinct (universe, form)")
+	r.Rule("reference resolver model (RFC 9460 §2.3, §2.4.2, §3 + property text) + total replay: universes = HTTPS data {none, NXDOMAIN/SERVFAIL/REFUSED/FORMERR/NOTIMP, alias chains of length 1..6 ending in {nothing, service set, alias '.', loop to origin/first/self, NXDOMAIN, SERVFAIL}, 14 service sets (1-2 records, priorities in both orders and equal, targets '.', t1, t2, port, ech)} x final-name addresses {A?,AAAA?} x address rcode {ok,NXDOMAIN,SERVFAIL} x in-answer CNAME x target addresses {none, A, A+AAAA (+second target A), SERVFAIL, first target SERVFAIL while the second has an address} x poisoned answers on/off (records of the asked type owned by an unrelated name, and an unrelated CNAME followed by data for its target, before and after the genuine records) x 12 name forms (host, host:port, URIs with http/https/other schemes, upper-case scheme, trailing dot); plus literal/localhost forms and hostile lengths (host 253..300 bytes, labels 63/64, schemes 1..300 bytes). Every query is served by an in-memory DoH responder and logged. distinct = distinct (universe, form)")
 	r.Assume("reference model in checks/c14; chains of up to 3 aliases must be followed, longer ones may be followed or abandoned (fallback to the origin's addresses or an error); alias loops must end in the fallback or an error; RRsets mixing alias and service mode are excluded (RFC 9460 leaves them to the client)",
 		"the DoH responder chases CNAMEs itself (recursive-resolver behaviour): answers carry the CNAME followed by the target's records")
 	var svcSets [][]svc
@@ -481,7 +506,8 @@ func Run(r *ev.Run) {
 		svcSets = append(svcSets, []svc{s})
 	}
 	pairs := [][2]svc{{{1, "", 0, true}, {2, "t1.example", 0, false}}, {{2, "", 0, true}, {1, "t1.example", 0, false}}, {{1, "t1.example", 0, true}, {1, "", 0, false}},
-		{{2, "t1.example", 8443, false}, {1, "t1.example", 0, true}}, {{1, "t2.example", 0, false}, {2, "", 0, true}}}
+		{{2, "t1.example", 8443, false}, {1, "t1.example", 0, true}}, {{1, "t2.example", 0, false}, {2, "", 0, true}},
+		{{1, "t1.example", 0, true}, {2, "t2.example", 0, false}}, {{1, "t2.example", 0, true}, {2, "t1.example", 0, false}}}
 	for _, p := range pairs {
 		svcSets = append(svcSets, []svc{p[0], p[1]})
 	}
@@ -509,7 +535,7 @@ func Run(r *ev.Run) {
 		}
 	}
 	r.Set("https_specs", len(hs))
-	prod := enum.Product{len(hs), 2, 2, 3, 2, 4, 2, len(forms)}
+	prod := enum.Product{len(hs), 2, 2, 3, 2, 5, 2, len(forms)}
 	var executed atomic.Int64
 	mux := dohmem.NewMux()
 	dns.VerifRoundTripper = mux
